@@ -195,7 +195,7 @@ func init() {
 				// the re-run does (C03), it must not re-execute a task one of whose
 				// outputs is final, nor touch those files.
 				c.Sample = "interrupted run, re-run in place: " + sample(w)
-				inc1 := RunInc(w, c.Tape, nil, 0, IncOpts{KillAt: -1, Strategy: strategyOf(c.Tape), Trace: c.Trace, Snapshots: true})
+				inc1 := RunInc(w, c.Tape, nil, 0, IncOpts{KillAt: -1, Strategy: strategyOf(c.Tape), Trace: c.Trace, SnapOne: 1 + uint64(c.Tape.Choose(simrt.StKill, 1<<20, 0))})
 				c.Absorb(inc1)
 				if v := flowOracle(inc1, ex0); v.Status != "ok" {
 					return foreign(v)
@@ -203,7 +203,7 @@ func init() {
 				if len(inc1.Snaps) == 0 {
 					return OK()
 				}
-				sn := inc1.Snaps[c.Tape.Choose(simrt.StKill, len(inc1.Snaps), 0)]
+				sn := inc1.Snaps[0]
 				c.Fault("kill@state")
 				before := finalBefore(sn.Root, ex0)
 				inc2 := RunInc(w, c.Tape, sn.Root, sn.NextIno, IncOpts{KillAt: -1, Strategy: strategyOf(c.Tape), Trace: c.Trace})
